@@ -50,7 +50,7 @@ pub enum PoolOp {
 pub fn pool_histories(len: usize) -> Vec<Cfg> {
     fn rec(seq: &mut Vec<PoolOp>, nstart: usize, shut: &mut Vec<bool>, len: usize, out: &mut Vec<Cfg>) {
         if !seq.is_empty() {
-            out.push(Cfg { perm: 0, linger_ms: 0, scn: Scn::Pools { ops: seq.clone() } });
+            out.push(Cfg { perm: 0, linger_ms: 0, scn: Scn::Pools { ops: seq.clone() }, tiny_linger: false });
         }
         if seq.len() == len {
             return;
@@ -87,11 +87,15 @@ pub struct Cfg {
     pub perm: usize,
     pub linger_ms: u64,
     pub scn: Scn,
+    /// Second clock model: the linger timeout is 1 ns and every reading of
+    /// the clock is 10 ns later than the previous one, so an auxiliary
+    /// worker's linger deadline has always passed by the time it looks at it.
+    pub tiny_linger: bool,
 }
 
 impl Cfg {
     pub fn to_json(&self) -> Value {
-        json!({"permanent_workers": self.perm, "linger_ms": self.linger_ms, "scenario": format!("{:?}", self.scn)})
+        json!({"permanent_workers": self.perm, "linger_ms": self.linger_ms, "linger_1ns_clock_advancing_10ns_per_reading": self.tiny_linger, "scenario": format!("{:?}", self.scn)})
     }
     pub fn n_ops(&self) -> usize {
         match &self.scn {
@@ -100,6 +104,9 @@ impl Cfg {
         }
     }
     pub fn label(&self) -> String {
+        if self.tiny_linger {
+            return format!("perm={} linger=1ns(clock +10ns per reading) {:?}", self.perm, self.scn);
+        }
         format!("perm={} linger={}ms {:?}", self.perm, self.linger_ms, self.scn)
     }
 }
@@ -110,29 +117,38 @@ pub fn configs(quick: bool) -> Vec<Cfg> {
         for linger_ms in [0u64, 5000] {
             let ns: &[usize] = if quick { &[1, 2] } else { &[1, 2, 3] };
             for &n in ns {
-                v.push(Cfg { perm, linger_ms, scn: Scn::SeqSpawn { n } });
+                v.push(Cfg { perm, linger_ms, scn: Scn::SeqSpawn { n }, tiny_linger: false });
                 if perm >= 1 {
-                    v.push(Cfg { perm, linger_ms, scn: Scn::SeqSubmit { n } });
+                    v.push(Cfg { perm, linger_ms, scn: Scn::SeqSubmit { n }, tiny_linger: false });
                 }
             }
-            v.push(Cfg { perm, linger_ms, scn: Scn::Concurrent { submitters: 1, each: 1, blocking: false } });
-            v.push(Cfg { perm, linger_ms, scn: Scn::Concurrent { submitters: 1, each: 2, blocking: false } });
-            v.push(Cfg { perm, linger_ms, scn: Scn::Concurrent { submitters: 2, each: 1, blocking: false } });
+            v.push(Cfg { perm, linger_ms, scn: Scn::Concurrent { submitters: 1, each: 1, blocking: false }, tiny_linger: false });
+            v.push(Cfg { perm, linger_ms, scn: Scn::Concurrent { submitters: 1, each: 2, blocking: false }, tiny_linger: false });
+            v.push(Cfg { perm, linger_ms, scn: Scn::Concurrent { submitters: 2, each: 1, blocking: false }, tiny_linger: false });
             if perm >= 1 {
-                v.push(Cfg { perm, linger_ms, scn: Scn::Concurrent { submitters: 1, each: 2, blocking: true } });
-                v.push(Cfg { perm, linger_ms, scn: Scn::Concurrent { submitters: 2, each: 1, blocking: true } });
+                v.push(Cfg { perm, linger_ms, scn: Scn::Concurrent { submitters: 1, each: 2, blocking: true }, tiny_linger: false });
+                v.push(Cfg { perm, linger_ms, scn: Scn::Concurrent { submitters: 2, each: 1, blocking: true }, tiny_linger: false });
             }
-            v.push(Cfg { perm, linger_ms, scn: Scn::ShutdownFromOther { n: 2 } });
+            v.push(Cfg { perm, linger_ms, scn: Scn::ShutdownFromOther { n: 2 }, tiny_linger: false });
         }
     }
     for n in [1usize, 2] {
-        v.push(Cfg { perm: 0, linger_ms: 0, scn: Scn::Oneshots { n } });
-        v.push(Cfg { perm: 0, linger_ms: 0, scn: Scn::Respawn { n } });
+        v.push(Cfg { perm: 0, linger_ms: 0, scn: Scn::Oneshots { n }, tiny_linger: false });
+        v.push(Cfg { perm: 0, linger_ms: 0, scn: Scn::Respawn { n }, tiny_linger: false });
+    }
+    // second clock model (see Cfg::tiny_linger)
+    for perm in [0usize, 1] {
+        for n in [1usize, 2, 3] {
+            v.push(Cfg { perm, linger_ms: 0, scn: Scn::SeqSpawn { n }, tiny_linger: true });
+        }
+        v.push(Cfg { perm, linger_ms: 0, scn: Scn::Concurrent { submitters: 1, each: 2, blocking: false }, tiny_linger: true });
+        v.push(Cfg { perm, linger_ms: 0, scn: Scn::Concurrent { submitters: 2, each: 1, blocking: false }, tiny_linger: true });
+        v.push(Cfg { perm, linger_ms: 0, scn: Scn::ShutdownFromOther { n: 2 }, tiny_linger: true });
     }
     // blocking submitters with no permanent worker: they can only be released
     // by the shutdown
-    v.push(Cfg { perm: 0, linger_ms: 0, scn: Scn::Concurrent { submitters: 1, each: 1, blocking: true } });
-    v.push(Cfg { perm: 0, linger_ms: 5000, scn: Scn::Concurrent { submitters: 2, each: 1, blocking: true } });
+    v.push(Cfg { perm: 0, linger_ms: 0, scn: Scn::Concurrent { submitters: 1, each: 1, blocking: true }, tiny_linger: false });
+    v.push(Cfg { perm: 0, linger_ms: 5000, scn: Scn::Concurrent { submitters: 2, each: 1, blocking: true }, tiny_linger: false });
     v
 }
 
@@ -194,8 +210,11 @@ impl Drop for Log {
 /// checks are in `Log::drop`.
 pub fn body(cfg: &Cfg) -> ExecReport {
     mcshim::reset();
+    if cfg.tiny_linger {
+        mcshim::set_tick_ns(10);
+    }
     let group = ThreadGroup::new();
-    let linger = Duration::from_millis(cfg.linger_ms);
+    let linger = if cfg.tiny_linger { Duration::from_nanos(1) } else { Duration::from_millis(cfg.linger_ms) };
     let mut violation: Option<(String, String)> = None;
     let mut viol = |k: &str, d: String| {
         if violation.is_none() {
